@@ -18,8 +18,8 @@ pub fn replay(prop: &str, line: &str, em: &mut Emitter) {
     let toks: Vec<&str> = line.split_whitespace().collect();
     if toks.is_empty() { return; }
     match toks[0] {
-        "tpkt_read" | "x224_read" | "tpkt_tls" => c13::run_case(&toks, em),
-        "tpkt_write" | "x224_write" | "tpkt_writes" | "link_write" | "tpkt_write_msg" => c14::run_case(&toks, em),
+        "tpkt_read" | "x224_read" | "x224_read_rdp" | "tpkt_tls" => c13::run_case(&toks, em),
+        "tpkt_write" | "x224_write" | "tpkt_write_sd" | "x224_write_sd" | "tpkt_writes" | "link_write" | "tpkt_write_msg" => c14::run_case(&toks, em),
         "blit" | "blitz" | "blit16" | "blitd" | "blitseq" | "blitdseq" => c19::run_case(&toks, em),
         "msg_wr" | "msg_rd" | "msg_rt" => c18::run_case(&toks, em),
         op if op.starts_with("per_") => per::run_case(&toks, em),
